@@ -126,21 +126,48 @@ func runC05Step(c *Ctx) {
 		c.anchorMissing("(*RuleExpression).VisitStep")
 		return
 	}
-	// the registration: MapUpdate on stepsTy.Props
-	var regs []*ssa.MapUpdate
-	eachInstr(fn, func(_ *ssa.BasicBlock, _ int, in ssa.Instruction) {
-		mu, ok := in.(*ssa.MapUpdate)
-		if !ok {
-			return
-		}
-		f, base := fieldLoad(mu.Map)
-		if f != "ObjectType.Props" {
-			return
-		}
-		if bf, _ := fieldLoad(base); bf == "RuleExpression.stepsTy" {
-			regs = append(regs, mu)
-		}
-	})
+	// the registration: MapUpdate on stepsTy.Props, in VisitStep itself or in a helper on the same receiver that VisitStep
+	// calls (an extracted "define the step id" method)
+	type reg struct {
+		mu     *ssa.MapUpdate
+		anchor ssa.Instruction // the instruction of VisitStep at which the registration happens
+		call   *ssa.Call       // the call of the helper (nil when registered in VisitStep itself)
+	}
+	var regs []reg
+	var collect func(f *ssa.Function, anchor ssa.Instruction, call *ssa.Call, depth int)
+	collect = func(f *ssa.Function, anchor ssa.Instruction, call *ssa.Call, depth int) {
+		eachInstr(f, func(_ *ssa.BasicBlock, _ int, in ssa.Instruction) {
+			switch x := in.(type) {
+			case *ssa.MapUpdate:
+				fl, base := fieldLoad(x.Map)
+				if fl != "ObjectType.Props" {
+					return
+				}
+				if bf, _ := fieldLoad(base); bf == "RuleExpression.stepsTy" {
+					a := anchor
+					if a == nil {
+						a = x
+					}
+					regs = append(regs, reg{x, a, call})
+				}
+			case *ssa.Call:
+				g := staticCallee(&x.Call)
+				if depth >= 2 || g == nil || g == f || !inModule(g) || g.Blocks == nil || len(x.Call.Args) == 0 || len(f.Params) == 0 || x.Call.Args[0] != ssa.Value(f.Params[0]) {
+					return
+				}
+				a := anchor
+				if a == nil {
+					a = x
+				}
+				cl := call
+				if cl == nil {
+					cl = x
+				}
+				collect(g, a, cl, depth+1)
+			}
+		})
+	}
+	collect(fn, nil, nil, 0)
 	if len(regs) == 0 {
 		c.bad("(*RuleExpression).VisitStep|step id registration", fn.Pos(), "the step id is never added to the steps scope")
 		return
@@ -151,32 +178,51 @@ func runC05Step(c *Ctx) {
 		return
 	}
 	var late []string
-	for _, reg := range regs {
+	for _, r := range regs {
 		for _, ch := range checks {
-			if instrReachableAfter(reg, ch) {
+			if ch == r.anchor {
+				continue
+			}
+			if instrReachableAfter(r.anchor, ch) {
 				late = append(late, fmt.Sprintf("%s at %s", describeCall(ch), p.Pos(ch.Pos())))
+			}
+		}
+		if r.call != nil {
+			// inside the helper nothing of the step is checked after the registration either
+			for _, ch := range p.checkingCalls(r.mu.Parent()) {
+				if instrReachableAfter(r.mu, ch) {
+					late = append(late, fmt.Sprintf("%s at %s", describeCall(ch), p.Pos(ch.Pos())))
+				}
 			}
 		}
 	}
 	sort.Strings(late)
 	if len(late) == 0 {
-		c.ok("(*RuleExpression).VisitStep|own id not in scope", regs[0].Pos(), fmt.Sprintf("none of the %d expression-checking calls can run after the id was registered", len(checks)))
+		c.ok("(*RuleExpression).VisitStep|own id not in scope", regs[0].mu.Pos(), fmt.Sprintf("none of the %d expression-checking calls can run after the id was registered", len(checks)))
 	} else {
-		c.bad("(*RuleExpression).VisitStep|own id not in scope", regs[0].Pos(), "expressions of the step are checked after its own id was added to the steps scope, so a reference to the step itself is accepted: "+strings.Join(late, "; "))
+		c.bad("(*RuleExpression).VisitStep|own id not in scope", regs[0].mu.Pos(), "expressions of the step are checked after its own id was added to the steps scope, so a reference to the step itself is accepted: "+strings.Join(late, "; "))
 	}
 	// the key under which it is registered is the lower-cased id of this step
 	okKey := false
-	if call, ok := regs[0].Key.(*ssa.Call); ok && calleeFullName(&call.Call) == "strings.ToLower" {
+	if call, ok := regs[0].mu.Key.(*ssa.Call); ok && calleeFullName(&call.Call) == "strings.ToLower" {
 		if f, base := fieldLoad(call.Call.Args[0]); f == "String.Value" {
+			// through the helper's parameter to the argument VisitStep passes
+			if prm, isParam := base.(*ssa.Parameter); isParam && regs[0].call != nil {
+				for i, q := range prm.Parent().Params {
+					if q == prm && i < len(regs[0].call.Call.Args) {
+						base = regs[0].call.Call.Args[i]
+					}
+				}
+			}
 			if bf, _ := fieldLoad(base); bf == "Step.ID" {
 				okKey = true
 			}
 		}
 	}
 	if okKey {
-		c.ok("(*RuleExpression).VisitStep|registered under lower(ID)", regs[0].Pos(), "key is strings.ToLower(n.ID.Value)")
+		c.ok("(*RuleExpression).VisitStep|registered under lower(ID)", regs[0].mu.Pos(), "key is strings.ToLower(n.ID.Value)")
 	} else {
-		c.bad("(*RuleExpression).VisitStep|registered under lower(ID)", regs[0].Pos(), "the step is not registered under its lower-cased id")
+		c.bad("(*RuleExpression).VisitStep|registered under lower(ID)", regs[0].mu.Pos(), "the step is not registered under its lower-cased id")
 	}
 }
 
@@ -196,7 +242,7 @@ func runC05Job(c *Ctx) {
 		c.undecided("(*RuleExpression).VisitJobPre|checking calls", pre.Pos(), fmt.Sprintf("only %d expression-checking calls found", len(checks)))
 	}
 	for _, field := range []string{"needsTy", "matrixTy"} {
-		sts := scopeStores(pre, field)
+		sts := scopeWrites(p, pre, field)
 		construct := "(*RuleExpression).VisitJobPre|" + field + " set before use"
 		if len(sts) == 0 {
 			c.bad(construct, pre.Pos(), field+" is not set")
@@ -215,7 +261,7 @@ func runC05Job(c *Ctx) {
 				continue
 			}
 			for _, st := range sts {
-				if instrReachableAfter(ch, st) {
+				if instrReachableAfter(ch, st.Instruction) {
 					early = append(early, describeCall(ch)+" at "+p.Pos(ch.Pos()))
 				}
 			}
@@ -228,7 +274,7 @@ func runC05Job(c *Ctx) {
 		}
 	}
 	// needsTy unconditionally on every path
-	domAll := func(fn *ssa.Function, sts []*ssa.Store, pred func(*ssa.Store) bool) bool {
+	domAll := func(fn *ssa.Function, sts []scopeW, pred func(scopeW) bool) bool {
 		for _, b := range fn.Blocks {
 			if _, ok := b.Instrs[len(b.Instrs)-1].(*ssa.Return); !ok {
 				continue
@@ -245,7 +291,7 @@ func runC05Job(c *Ctx) {
 		}
 		return true
 	}
-	isFresh := func(st *ssa.Store) bool {
+	isFresh := func(st scopeW) bool {
 		call, ok := st.Val.(*ssa.Call)
 		if !ok {
 			return false
@@ -253,7 +299,7 @@ func runC05Job(c *Ctx) {
 		f := staticCallee(&call.Call)
 		return f != nil && FuncName(f) == "NewEmptyStrictObjectType"
 	}
-	if domAll(pre, scopeStores(pre, "stepsTy"), isFresh) {
+	if domAll(pre, scopeWrites(p, pre, "stepsTy"), isFresh) {
 		c.ok("(*RuleExpression).VisitJobPre|stepsTy fresh per job", pre.Pos(), "every path stores a new empty strict object")
 	} else {
 		c.bad("(*RuleExpression).VisitJobPre|stepsTy fresh per job", pre.Pos(), "a path leaves the previous job's steps in scope (or none): step ids of another job resolve")
@@ -261,9 +307,9 @@ func runC05Job(c *Ctx) {
 	// the steps scope must be set after all the job-level checks (job-level sections cannot see steps)
 	{
 		var late []string
-		for _, st := range scopeStores(pre, "stepsTy") {
+		for _, st := range scopeWrites(p, pre, "stepsTy") {
 			for _, ch := range checks {
-				if instrReachableAfter(st, ch) {
+				if instrReachableAfter(st.Instruction, ch) {
 					late = append(late, describeCall(ch))
 				}
 			}
@@ -274,7 +320,7 @@ func runC05Job(c *Ctx) {
 			c.bad("(*RuleExpression).VisitJobPre|stepsTy after job-level checks", pre.Pos(), "job-level sections are checked with an (empty) strict steps scope: "+strings.Join(late, "; "))
 		}
 	}
-	if domAll(pre, scopeStores(pre, "needsTy"), func(st *ssa.Store) bool {
+	if domAll(pre, scopeWrites(p, pre, "needsTy"), func(st scopeW) bool {
 		call, ok := st.Val.(*ssa.Call)
 		if !ok {
 			return false
@@ -289,9 +335,9 @@ func runC05Job(c *Ctx) {
 	// Post: all three reset to nil on every path, after every check
 	pchecks := p.checkingCalls(post)
 	for _, field := range []string{"matrixTy", "stepsTy", "needsTy"} {
-		sts := scopeStores(post, field)
+		sts := scopeWrites(p, post, field)
 		construct := "(*RuleExpression).VisitJobPost|" + field + " reset"
-		isNil := func(st *ssa.Store) bool { return isNilConst(st.Val) }
+		isNil := func(st scopeW) bool { return isNilConst(st.Val) }
 		if !domAll(post, sts, isNil) {
 			c.bad(construct, post.Pos(), "a path leaves "+field+" of this job in scope for what is checked next")
 			continue
@@ -299,7 +345,7 @@ func runC05Job(c *Ctx) {
 		var late []string
 		for _, st := range sts {
 			for _, ch := range pchecks {
-				if instrReachableAfter(st, ch) {
+				if instrReachableAfter(st.Instruction, ch) {
 					late = append(late, describeCall(ch))
 				}
 			}
@@ -319,7 +365,7 @@ func runC05Job(c *Ctx) {
 	for _, field := range []string{"matrixTy", "stepsTy", "needsTy"} {
 		var others []string
 		for _, fn := range p.Funcs {
-			if fn == pre || fn == post || fn.Name() == "NewRuleExpression" {
+			if fn == pre || fn == post || fn.Name() == "NewRuleExpression" || helperOnlyOf(p, fn, pre, post) {
 				continue
 			}
 			if len(scopeStores(fn, field)) > 0 {
@@ -826,4 +872,95 @@ func exprGuardAt(b *ssa.BasicBlock) string {
 		}
 	}
 	return reason
+}
+
+// scopeW: a write of a per-job scope field as seen from the function under analysis - the store itself, or the call of a
+// helper on the same receiver that stores the field on every one of its paths (an extracted reset/setup helper).
+type scopeW struct {
+	ssa.Instruction
+	Val ssa.Value
+}
+
+func scopeWrites(p *Prog, fn *ssa.Function, field string) []scopeW {
+	return scopeWritesDepth(p, fn, field, 0)
+}
+
+func scopeWritesDepth(p *Prog, fn *ssa.Function, field string, depth int) []scopeW {
+	var out []scopeW
+	for _, st := range scopeStores(fn, field) {
+		out = append(out, scopeW{st, st.Val})
+	}
+	if depth > 2 || len(fn.Params) == 0 {
+		return out
+	}
+	eachInstr(fn, func(_ *ssa.BasicBlock, _ int, in ssa.Instruction) {
+		call, ok := in.(*ssa.Call)
+		if !ok {
+			return
+		}
+		g := staticCallee(&call.Call)
+		if g == nil || g == fn || !inModule(g) || g.Blocks == nil || len(call.Call.Args) == 0 || call.Call.Args[0] != ssa.Value(fn.Params[0]) {
+			return
+		}
+		ws := scopeWritesDepth(p, g, field, depth+1)
+		if len(ws) == 0 {
+			return
+		}
+		// the helper writes on every path to its returns, and every write stores the same kind of value
+		for _, b := range g.Blocks {
+			if _, isRet := b.Instrs[len(b.Instrs)-1].(*ssa.Return); !isRet {
+				continue
+			}
+			covered := false
+			for _, w := range ws {
+				if w.Block() == b || w.Block().Dominates(b) {
+					covered = true
+				}
+			}
+			if !covered {
+				out = append(out, scopeW{call, nil}) // may-write: counts for the ordering checks, covers nothing
+				return
+			}
+		}
+		val := ws[0].Val
+		for _, w := range ws[1:] {
+			if isNilConst(w.Val) != isNilConst(val) {
+				val = nil
+			}
+		}
+		out = append(out, scopeW{call, val})
+	})
+	return out
+}
+
+// helperOnlyOf: fn is a method that is only ever called, on their own receiver, from the given functions (or from other
+// such helpers).
+func helperOnlyOf(p *Prog, fn *ssa.Function, owners ...*ssa.Function) bool {
+	return helperOnlyOfDepth(p, fn, owners, 0)
+}
+
+func helperOnlyOfDepth(p *Prog, fn *ssa.Function, owners []*ssa.Function, depth int) bool {
+	if depth > 2 {
+		return false
+	}
+	callers := p.callersOf(fn)
+	if len(callers) == 0 {
+		return false
+	}
+	for _, e := range callers {
+		caller := e.Caller.Func
+		isOwner := false
+		for _, o := range owners {
+			if caller == o {
+				isOwner = true
+			}
+		}
+		if !isOwner && !helperOnlyOfDepth(p, caller, owners, depth+1) {
+			return false
+		}
+		if e.Site == nil || e.Site.Common().IsInvoke() || len(e.Site.Common().Args) == 0 || len(caller.Params) == 0 || e.Site.Common().Args[0] != ssa.Value(caller.Params[0]) {
+			return false
+		}
+	}
+	return true
 }
